@@ -27,7 +27,11 @@ import (
 	"github.com/tokenized/spynode/internal/spynode"
 )
 
-func init() { register("untrusted", runUntrusted) }
+func init() {
+	register("untrusted", runUntrusted)
+	// filling the socket buffers takes a few hundred thousand pings (CPU bound): one case at a time
+	serialComponents["untrusted"] = true
+}
 
 func runUntrusted(c *Case) ([]Obs, any) {
 	ctx := context.Background()
@@ -90,7 +94,7 @@ func runUntrusted(c *Case) ([]Obs, any) {
 			case "ufill":
 				sent := 0
 				full := false
-				deadline := time.Now().Add(20 * time.Second)
+				deadline := time.Now().Add(90 * time.Second)
 				for time.Now().Before(deadline) && !full {
 					for i := 0; i < 200; i++ {
 						conn.SetWriteDeadline(time.Now().Add(200 * time.Millisecond))
@@ -125,7 +129,18 @@ func runUntrusted(c *Case) ([]Obs, any) {
 				}
 				return Obs{OK, b2i(ret)}
 			case "ucounts":
+				// the counters are incremented inside the goroutines: report them once they have been
+				// unchanged for 150 ms (a goroutine that has not run yet is not a different outcome)
 				in, pr := un.VerifCounts()
+				stable := time.Now()
+				deadline := time.Now().Add(2 * time.Second)
+				for time.Now().Before(deadline) && time.Since(stable) < 150*time.Millisecond {
+					time.Sleep(5 * time.Millisecond)
+					i2, p2 := un.VerifCounts()
+					if i2 != in || p2 != pr {
+						in, pr, stable = i2, p2, time.Now()
+					}
+				}
 				return Obs{OK, in, pr}
 			case "udrain":
 				n := drainUntrusted(un, 600*time.Millisecond)
